@@ -11,6 +11,7 @@ crate's own `==`.  The heavy lifting (one lawfulness lemma per constructor, `Law
 `HvLat/Laws/*.lean`; the theorems below are its instances by induction on `t`.
 -/
 import HvLat.Laws.AllB
+import HvLat.Gen.Tables
 
 namespace HvLat
 
@@ -134,5 +135,24 @@ example : ok exT = true ∧ (sem exT).wf exA ∧ (sem exT).wf exB ∧
       (lat exT).merge exA exB =
         (([(1, some ([1, 2, 3], 3)), (2, none), (4, some ([7], 0))] : List (Nat × Option (List Nat × Nat))), true) :=
   ⟨rfl, aux_exA_wf, aux_exB_wf, rfl⟩
+
+
+/-! ### tie to the source: the tables regenerated from lattices/src on every run (`Gen/Tables.lean`,
+written by lean/HvLat/translate_tables.py) are the functions of the model -/
+
+open Gen in
+theorem gen_withBot_merge (L : Lat β) (s o : Option β) :
+    (Lat.withBot L).merge s o = withBotMerge L s o := by
+  cases s <;> cases o <;> simp only [Lat.withBot, withBotMerge] <;> try rfl
+  all_goals (split <;> rfl)
+
+open Gen in
+theorem gen_withTop_merge (L : Lat β) (s o : Option β) :
+    (Lat.withTop L).merge s o = withTopMerge L s o := by
+  cases s <;> cases o <;> rfl
+
+open Gen in
+theorem gen_with_from (L : Lat β) (o : Option β) :
+    (Lat.withBot L).lfrom o = withBotFrom L o ∧ (Lat.withTop L).lfrom o = withTopFrom L o := ⟨rfl, rfl⟩
 
 end HvLat
